@@ -49,3 +49,15 @@ package storage
 //@   loop 2
 //@     invariant pb != nil && fresh(pb) && fresh(pb.Producers) && len(pb.Delegations) == len(d.Delegations) && len(pb.Producers) == rangeindex#2 + 1
 //@     invariant forall k int :: 0 <= k && k <= rangeindex#2 ==> allocated(pb.Producers[k]) && len(pb.Producers[k]) == 20 && bytesval(pb.Producers[k]) == arrbytes(d.Producers[k], 20)
+
+// the store of points, as seen by GetPoint (ASSUMED frames: reading, deleting and storing a point leave point objects alone)
+//@ func DB.GetPointByHeight(db, prefix, height) -> (pt, err)
+//@   trusted
+//@   ensures err != nil ==> pt == nil
+//@   modifies nothing
+//@ func DB.DeletePointByHeight(db, prefix, height)
+//@   trusted
+//@   modifies nothing
+//@ func DB.StorePointByHeight(db, prefix, height, p)
+//@   trusted
+//@   modifies nothing
